@@ -88,6 +88,18 @@ func abbreviate(s string) string {
 
 func (f *frame) edgeConds(n *node, c string) {
 	g := f.x.g
+	// a condition already decided on every path to this node (same term, thanks to
+	// hash-consing) folds the branch
+	if a, neg := g.Atom(c); n.facts != nil {
+		if v, ok := n.facts[a]; ok {
+			if v != neg {
+				c = "true"
+			} else {
+				c = "false"
+			}
+		}
+	}
+	n.branch = c
 	n.edges = []string{g.Fresh(SortBool, and(n.reach, c)), g.Fresh(SortBool, and(n.reach, not(c)))}
 }
 
@@ -273,7 +285,7 @@ func (f *frame) execInstr(n *node, ins ssa.Instruction) bool {
 				rv.Sub = append(rv.Sub, x.coerce(val(r), sig.Results().At(i).Type()))
 			}
 		}
-		f.rets = append(f.rets, retInfo{n.reach, rv, n.heap})
+		f.rets = append(f.rets, retInfo{n.reach, rv, n.heap, n.facts})
 
 	case *ssa.Panic:
 		if !f.spec && !x.inSpec() && x.safeOn {
@@ -648,6 +660,14 @@ func (x *Exec) binopVals(f *frame, n *node, op token.Token, a, b Val, xt, yt, rt
 			}
 			if _, _, ok := intInfo(xt); ok {
 				e = eq(a.C[0], b.C[0])
+				if va, _, oka := parseBV(a.C[0]); oka {
+					if vb, _, okb := parseBV(b.C[0]); okb {
+						e = "false"
+						if va == vb {
+							e = "true"
+						}
+					}
+				}
 				break
 			}
 			switch xt.Underlying().(type) {
@@ -754,6 +774,9 @@ func (x *Exec) binopVals(f *frame, n *node, op token.Token, a, b Val, xt, yt, rt
 	}
 	s := bvSort(w)
 	xa, yb := a.C[0], b.C[0]
+	if r, ok := foldBV(op, xa, yb, w, signed, yt); ok {
+		return Val{T: rt, C: []string{r}}
+	}
 	bin := func(o string) Val { return Val{T: rt, C: []string{g.Fresh(s, "("+o+" "+xa+" "+yb+")")}} }
 	cmp := func(u, sg string) Val {
 		if signed {
@@ -897,6 +920,12 @@ func (f *frame) convert(n *node, in *ssa.Convert) Val {
 	tk, tfl := isFloat(tt)
 	switch {
 	case fint && tint:
+		if lv, _, ok := parseBV(v.C[0]); ok {
+			if fs && fw < 64 && lv&(1<<uint(fw-1)) != 0 {
+				lv |= ^uint64(0) << uint(fw)
+			}
+			return Val{T: tt, C: []string{bvLit(lv, tw)}}
+		}
 		switch {
 		case tw == fw:
 			return Val{T: tt, C: v.C}
@@ -1087,4 +1116,105 @@ func bigLit(v *big.Int) string {
 		return "(- " + new(big.Int).Neg(v).String() + ")"
 	}
 	return v.String()
+}
+
+// parseBV recognises the literal form produced by bvLit.
+func parseBV(t string) (uint64, int, bool) {
+	if !strings.HasPrefix(t, "(_ bv") || !strings.HasSuffix(t, ")") {
+		return 0, 0, false
+	}
+	var v uint64
+	var w int
+	if n, err := fmt.Sscanf(t, "(_ bv%d %d)", &v, &w); n != 2 || err != nil || w < 1 || w > 64 {
+		return 0, 0, false
+	}
+	return v, w, true
+}
+
+// foldBV evaluates an integer operator on two literals with Go's semantics at width w.
+func foldBV(op token.Token, xa, yb string, w int, signed bool, yt types.Type) (string, bool) {
+	a, wa, ok := parseBV(xa)
+	if !ok || wa != w {
+		return "", false
+	}
+	b, _, ok := parseBV(yb)
+	if !ok {
+		return "", false
+	}
+	mask := ^uint64(0)
+	if w < 64 {
+		mask = (uint64(1) << uint(w)) - 1
+	}
+	sx := func(v uint64) int64 {
+		if w < 64 && v&(1<<uint(w-1)) != 0 {
+			v |= ^uint64(0) << uint(w)
+		}
+		return int64(v)
+	}
+	boolT := func(c bool) (string, bool) {
+		if c {
+			return "true", true
+		}
+		return "false", true
+	}
+	switch op {
+	case token.ADD:
+		return bvLit((a+b)&mask, w), true
+	case token.SUB:
+		return bvLit((a-b)&mask, w), true
+	case token.MUL:
+		return bvLit((a*b)&mask, w), true
+	case token.AND:
+		return bvLit(a&b, w), true
+	case token.OR:
+		return bvLit(a|b, w), true
+	case token.XOR:
+		return bvLit(a^b, w), true
+	case token.AND_NOT:
+		return bvLit(a&^b, w), true
+	case token.SHL:
+		if _, ys, _ := intInfo(yt); ys && int64(b) < 0 {
+			return "", false
+		}
+		if b >= uint64(w) {
+			return bvLit(0, w), true
+		}
+		return bvLit((a<<b)&mask, w), true
+	case token.SHR:
+		if _, ys, _ := intInfo(yt); ys && int64(b) < 0 {
+			return "", false
+		}
+		if signed {
+			v := sx(a)
+			if b >= uint64(w) {
+				b = uint64(w - 1)
+			}
+			return bvLit(uint64(v>>b)&mask, w), true
+		}
+		if b >= uint64(w) {
+			return bvLit(0, w), true
+		}
+		return bvLit(a>>b, w), true
+	case token.LSS:
+		if signed {
+			return boolT(sx(a) < sx(b))
+		}
+		return boolT(a < b)
+	case token.LEQ:
+		if signed {
+			return boolT(sx(a) <= sx(b))
+		}
+		return boolT(a <= b)
+	case token.GTR:
+		if signed {
+			return boolT(sx(a) > sx(b))
+		}
+		return boolT(a > b)
+	case token.GEQ:
+		if signed {
+			return boolT(sx(a) >= sx(b))
+		}
+		return boolT(a >= b)
+	}
+	return "", false
 }
